@@ -120,17 +120,40 @@ ShrA(a, b) == ShrN(a, Count(b), Msb(a))
 
 ----------------------------------------------------------------------------
 \* unsigned division (restoring, bit by bit); x / 0 = all ones, x mod 0 = x   (RzIL convention)
-RECURSIVE DivStep(_, _, _, _, _)
-\* k = index of the next dividend bit (w-1 .. 0); q, r accumulated so far
-DivStep(a, d, k, q, r) ==
-    LET r1 == LET s == ShlN(r, 1) IN IF Bit(a, k) = 1 THEN OrBV(s, One(a.w)) ELSE s
+\* One step of restoring division on *values* (no laziness): s = [q, r] so far, bit k of a is next.
+DivStepRec(a, d, k, s) ==
+    LET r1 == LET sh == ShlN(s.r, 1) IN IF Bit(a, k) = 1 THEN OrBV(sh, One(a.w)) ELSE sh
         \* r < d <= 2^w - 1, so r1 = 2r+bit may overflow w bits only if Msb(r); then r1 >= d anyway
-        ge == Msb(r) \/ ~Ult(r1, d)
-        r2 == IF ge THEN Sub(r1, d) ELSE r1
-        q2 == IF ge THEN OrBV(ShlN(q, 1), One(a.w)) ELSE ShlN(q, 1)
-    IN  IF k = 0 THEN <<q2, r2>> ELSE DivStep(a, d, k - 1, q2, r2)
+        ge == Msb(s.r) \/ ~Ult(r1, d)
+    IN  [q |-> IF ge THEN OrBV(ShlN(s.q, 1), One(a.w)) ELSE ShlN(s.q, 1),
+         r |-> IF ge THEN Sub(r1, d) ELSE r1]
 
-UDivMod(a, d) == IF IsZero(d) THEN <<Ones(a.w), a>> ELSE DivStep(a, d, a.w - 1, Zero(a.w), Zero(a.w))
+RECURSIVE DivLoop(_, _, _, _)
+\* TLC passes operator arguments as unevaluated thunks; in a recursion whose accumulator is used more
+\* than once per level this chains thunks and the cost grows exponentially with the depth (measured:
+\* 48-bit division > 100 s).  Binding through a singleton set forces the accumulator to a value once
+\* per level:  {F(x) : x \in {e}}  evaluates e exactly once.
+DivLoop(a, d, k, qr) ==
+    CHOOSE res \in { IF k = 0 THEN <<n.q, n.r>> ELSE DivLoop(a, d, k - 1, n) :
+                     n \in { DivStepRec(a, d, k, s) : s \in {qr} } } : TRUE
+
+\* Fast path: divisor below 2^15 -> limb-wise long division with native integers
+\* (rem < 2^15, so rem * BASE + limb < 2^23).
+RECURSIVE DivSmallL(_, _, _, _)
+DivSmallL(l, i, dn, rem) ==
+    IF i = 0 THEN << <<>>, rem >>
+    ELSE LET cur == rem * BASE + l[i]
+             rest == DivSmallL(l, i - 1, dn, cur % dn)
+         IN  << Append(rest[1], cur \div dn), rest[2] >>
+
+SmallDivisor(d) == LB = 8 /\ Count(d) < 32768
+
+\* the operands are forced to values first (see DivLoop)
+UDivMod(a0, d0) ==
+    CHOOSE res \in { (IF IsZero(d) THEN <<Ones(a.w), a>>
+                      ELSE IF SmallDivisor(d)
+                           THEN LET qr == DivSmallL(a.l, NL(a.w), Count(d), 0) IN << Mk(a.w, qr[1]), FromNat(a.w, qr[2]) >>
+                      ELSE DivLoop(a, d, a.w - 1, [q |-> Zero(a.w), r |-> Zero(a.w)])) : a \in {a0}, d \in {d0} } : TRUE
 UDiv(a, d) == UDivMod(a, d)[1]
 UMod(a, d) == UDivMod(a, d)[2]
 
